@@ -27,6 +27,7 @@ type seqModel struct {
 	keys       map[string]*seqKey
 	defaultTTL map[string]int64 // dmap name -> default ttl ms
 	epochMs    int64            // wall-clock ms at simulated time 0
+	overflow   bool             // the candidate set had to be cut: later mismatches prove nothing
 }
 
 // The bubble clock starts at 2000-01-01T00:00:00Z.
@@ -228,8 +229,11 @@ func (m *seqModel) step(r *plan.Rec) (bad []string) {
 			sk.states = m.resync(sk.states, r, t1)
 			continue
 		}
-		if len(next) > 64 {
-			next = next[:64]
+		// (one candidate per millisecond the operation was in flight: an operation that was paused
+		// for 90 ms has 90 possible deadlines; cutting the set would turn a legal one into a mismatch)
+		if len(next) > 20000 {
+			m.overflow = true
+			next = next[:20000]
 		}
 		sk.states = next
 	}
